@@ -351,7 +351,7 @@ def main(tier):
                 ck.violation(r["name"], {"solver": r["backend"], "solver_output": r["detail"], "kind": "c16"}, reproduced=True)
     for (p, can), oc in zip(CANARIES, outs[len(PARTS):]):
         ref = oc[0] == "ok" and not oc[1]["error"] and any(r["status"] != "proved" for r in oc[1]["results"])
-        ck.canaries.append((f"{can[0]}: {can[2][:50]!r} -> {can[3][:50]!r}", ref))
+        ck.canary(f"{can[0]}: {can[2][:50]!r} -> {can[3][:50]!r}", ref, oc)
     ck.bounded = {"evaluations": evals, "distinct_nontrivial": cases, "exhaustive": False,
                   "rule": "generated SWC files: 1-, 2- and 3-point somata x 8 (quick) neurite-tree shapes (types 2,3,4; chains and binary bifurcations to depth 3) x seeds for coordinates/radii x {regular, zero-length first segment} x min_radius in {None, 0.6}, each read with ncomp in {1,2,3}; "
                           "the repository's SWC files for ncomp-independence and max_branch_len; _split_branch_equally exhaustively for lengths 4..40 x 2..10 pieces; 40 seeded radius profiles. A case = one distinct generated file x setting"}
